@@ -100,6 +100,7 @@ theorem storeWF_putEntry {st : Store} (h : StoreWF st) {e : Entry} (he : EntryWF
   rowIds := h.rowIds
   rowKeys := h.rowKeys
   rowLocal := h.rowLocal
+  rowNamed := h.rowNamed
 
 theorem storeWF_deleteEntry {st : Store} (h : StoreWF st) (n : Name) : StoreWF (deleteEntry st n) where
   names := h.names.filter _
@@ -107,6 +108,7 @@ theorem storeWF_deleteEntry {st : Store} (h : StoreWF st) (n : Name) : StoreWF (
   rowIds := h.rowIds
   rowKeys := h.rowKeys
   rowLocal := h.rowLocal
+  rowNamed := h.rowNamed
 
 /-- the shape shared by all config-entry writes: normalize, validate, then replace the entry -/
 theorem storeWF_commit {st : Store} (h : StoreWF st) (legacy : Bool) (e : Entry) :
@@ -148,7 +150,8 @@ theorem storeWF_mutLegacyCreate {st : Store} (h : StoreWF st) (dst : Name) (v : 
       · exact h
       · exact storeWF_commit h true _
 
-theorem storeWF_legacySet {st : Store} (h : StoreWF st) (id : Name) (r : Ixn) (hr : r.peer = []) :
+theorem storeWF_legacySet {st : Store} (h : StoreWF st) (id : Name) (r : Ixn)
+    (hr : r.peer = [] ∧ r.src ≠ [] ∧ r.dst ≠ []) :
     StoreWF (legacySet st id r).1 := by
   unfold legacySet
   split
@@ -159,10 +162,11 @@ theorem storeWF_legacySet {st : Store} (h : StoreWF st) (id : Name) (r : Ixn) (h
       split
       · exact h
       · next hdup =>
-        simp only [List.any_eq_true, Bool.and_eq_true, decide_eq_true_eq, not_exists, not_and] at hdup
+        simp only [hr.2.1, hr.2.2, ne_eq, not_false_eq_true, decide_true, Bool.true_and,
+          List.any_eq_true, Bool.and_eq_true, decide_eq_true_eq, not_exists, not_and] at hdup
         split
         · -- update of the row with this id
-          refine ⟨h.names, h.entries, ?_, ?_, ?_⟩
+          refine ⟨h.names, h.entries, ?_, ?_, ?_, ?_⟩
           · simp only
             rw [List.pairwise_map]
             apply h.rowIds.imp
@@ -198,12 +202,18 @@ theorem storeWF_legacySet {st : Store} (h : StoreWF st) (id : Name) (r : Ixn) (h
             simp only [List.mem_map] at hx
             obtain ⟨y, hy, rfl⟩ := hx
             split
-            · simp [hr]
+            · simp [hr.1]
             · exact h.rowLocal y hy
+          · intro x hx
+            simp only [List.mem_map] at hx
+            obtain ⟨y, hy, rfl⟩ := hx
+            split
+            · exact ⟨hr.2.1, hr.2.2⟩
+            · exact h.rowNamed y hy
         · -- a new row
           next hnew =>
           simp only [List.any_eq_true, decide_eq_true_eq, not_exists, not_and] at hnew
-          refine ⟨h.names, h.entries, ?_, ?_, ?_⟩
+          refine ⟨h.names, h.entries, ?_, ?_, ?_, ?_⟩
           · simp only
             rw [List.pairwise_append]
             refine ⟨h.rowIds, by simp, ?_⟩
@@ -226,23 +236,30 @@ theorem storeWF_legacySet {st : Store} (h : StoreWF st) (id : Name) (r : Ixn) (h
             · exact h.rowLocal x hx'
             · simp only [List.mem_singleton] at hx'
               subst hx'
-              simp [hr]
+              simp [hr.1]
+          · intro x hx
+            rcases List.mem_append.mp hx with hx' | hx'
+            · exact h.rowNamed x hx'
+            · simp only [List.mem_singleton] at hx'
+              subst hx'
+              exact ⟨hr.2.1, hr.2.2⟩
 
 theorem storeWF_legacyDelete {st : Store} (h : StoreWF st) (id : Name) : StoreWF (legacyDelete st id).1 := by
   unfold legacyDelete
   split
   · exact h
   · exact ⟨h.names, h.entries, h.rowIds.filter _, h.rowKeys.filter _,
-      fun x hx => h.rowLocal x (List.mem_filter.mp hx).1⟩
+      fun x hx => h.rowLocal x (List.mem_filter.mp hx).1, fun x hx => h.rowNamed x (List.mem_filter.mp hx).1⟩
 
 theorem storeWF_empty (m : Bool) : StoreWF { cfgMode := m } :=
-  ⟨by simp, by simp, by simp, by simp, by simp⟩
+  ⟨by simp, by simp, by simp, by simp, by simp, by simp⟩
 
 /-! ### histories -/
 
-/-- legacy rows never carry a peer (`Intention.Apply` rejects `SourcePeer`; the legacy table predates peering) -/
+/-- legacy rows never carry a peer (`Intention.Apply` rejects `SourcePeer`; the legacy table predates
+    peering) and name both ends (`Intention.Validate`: SourceName / DestinationName must be set) -/
 def Op.local : Op → Prop
-  | .lset _ r => r.peer = []
+  | .lset _ r => r.peer = [] ∧ r.src ≠ [] ∧ r.dst ≠ []
   | _ => True
 
 theorem storeWF_applyOpE {st : Store} (h : StoreWF st) (o : Op) (ho : o.local) : StoreWF (applyOpE st o).1 := by
